@@ -35,6 +35,7 @@ type Exec struct {
 	globalInit  map[string]func(ex *Exec, st *State, g *ssa.Global) Value
 	stats       struct{ forks, feas, paths int }
 	fallbackBudget time.Duration
+	boundHits   map[string]int // representation bounds that cut feasible paths (reported in evidence)
 }
 
 type Obligation struct {
@@ -55,7 +56,7 @@ type InputVal struct {
 
 func NewExec(prog *ssa.Program, solver *Solver) *Exec {
 	ex := &Exec{prog: prog, solver: solver, fallbackBudget: 60 * time.Second, unwind: 12, maxSteps: 400000, maxStates: 20000,
-		fnSeen: map[string]bool{}, stubSeen: map[string]bool{}}
+		fnSeen: map[string]bool{}, stubSeen: map[string]bool{}, boundHits: map[string]int{}}
 	ex.stubs = defaultStubs()
 	return ex
 }
